@@ -1924,6 +1924,91 @@ def c03_layout_checks(repo: Repo, tier: str, res: CheckResult, seed: int) -> Non
     res.count("LAYOUT.programs-audited", n_prog, 80)
 
 
+# ================================================================================================ C01: loader/dumper symmetry
+def c01_checks(repo: Repo, tier: str, res: CheckResult, seed: int) -> None:
+    """For every layout configuration with both programs: fields handled by both are read from the path they are written
+    to; a list node of the dumper is a list node of the loader. No oracle: the two emitted programs are compared."""
+    from .genaudit import audit_dumper, audit_loader
+    recs = [r for r in run_child(repo, tier, seed, "layoutpipe") if r.get("kind") == "layoutpipe"]
+    NL = "adaptix/_internal/morphing/name_layout/component.py"
+    n = n_fields = 0
+    for r in recs:
+        if r.get("harness_error"):
+            raise AnalysisError(f"layoutpipe harness failed on configuration {r['idx']}: {r['harness_error']}")
+        L, D = r["loader"], r["dumper"]
+        if L["error"] is not None or D["error"] is not None or len(L["sources"]) != 1 or len(D["sources"]) != 1:
+            continue
+        try:
+            lf, _ = _parse_hook_source(L["sources"][0])
+            df, _ = _parse_hook_source(D["sources"][0])
+        except SyntaxError:
+            continue      # reported by C03 / C19
+        n += 1
+        res.evaluated(f"G:roundtrip-layout:{r['idx']}", True)
+        SL, SD = audit_loader(lf), audit_dumper(df)
+        reads: Dict[str, Set[Tuple]] = {}
+        for rd in SL.reads:
+            if rd.via in ("loader", "as-is") and rd.path is not None:
+                reads.setdefault(rd.field_id, set()).add(tuple(rd.path))
+        written: Dict[str, Set[Tuple]] = {}
+        for pth, ent in SD.tree.items():
+            if ent[0] in ("field", "opt-field"):
+                written.setdefault(ent[1], set()).add(tuple(pth))
+        cdesc = json.dumps({k: v for k, v in r["cfg"].items() if k != "with_rest"}, sort_keys=True)[:400]
+        for f in sorted(set(reads) & set(written)):
+            n_fields += 1
+            if reads[f] != written[f]:
+                res.add(Finding("C01", "ROUNDTRIP.path-asymmetry", NL, "BuiltinStructureMaker",
+                                f"field {f}: dumped to {sorted(map(list, written[f]))}, loaded from {sorted(map(list, reads[f]))}"[:160],
+                                f"name_mapping configuration #{r['idx']} {cdesc}: the dumper writes field `{f}` to "
+                                f"{sorted(map(list, written[f]))} but the loader of the same retort takes it from "
+                                f"{sorted(map(list, reads[f]))}: load(dump(x)) cannot give the field back", 0, extra={"cfg": r["cfg"]}))
+        # container kinds along the written paths: an int step of the dumper is an int step of the loader
+        lkinds = {tuple(p[:i]) + (type(p[i]).__name__,) for ps in reads.values() for p in ps for i in range(len(p))}
+        dkinds = {tuple(p[:i]) + (type(p[i]).__name__,) for f, ps in written.items() if f in reads for p in ps for i in range(len(p))}
+        if not dkinds <= lkinds:
+            bad = sorted(map(list, dkinds - lkinds))[:3]
+            res.add(Finding("C01", "ROUNDTRIP.node-kind-asymmetry", NL, "BuiltinStructureMaker", f"node kinds differ at {bad}"[:160],
+                            f"name_mapping configuration #{r['idx']} {cdesc}: the dumper builds list/dict nodes where the loader "
+                            f"expects the other kind ({bad})", 0, extra={"cfg": r["cfg"]}))
+        if len(res.samples) < 12 and n % 31 == 1:
+            res.sample({"configuration": r["cfg"], "fields compared": sorted(set(reads) & set(written)), "verdict": "same paths"})
+    res.count("ROUNDTRIP.configurations", n, 25)
+    res.count("ROUNDTRIP.fields-compared", n_fields, 80)
+    # the model-kind family: all-required models exist there, so list layouts (as_list) have a loader too
+    m = 0
+    for r in run_child(repo, tier, seed, "kinds"):
+        if r.get("kind") != "kinds" or r.get("harness_error") or r.get("inexpressible"):
+            continue
+        L, D = r["loader"], r["dumper"]
+        if L["error"] is not None or D["error"] is not None or not L["source"] or not D["source"]:
+            continue
+        try:
+            lf, _ = _parse_hook_source(L["source"])
+            df, _ = _parse_hook_source(D["source"])
+        except SyntaxError:
+            continue
+        m += 1
+        ident = f"{r['spec']}/{r['nm']}/{r['model_kind']}/{r['debug_trail']}"
+        res.evaluated(f"G:roundtrip-kinds:{ident}", True)
+        SL, SD = audit_loader(lf), audit_dumper(df)
+        reads = {}
+        for rd in SL.reads:
+            if rd.via in ("loader", "as-is") and rd.path is not None:
+                reads.setdefault(rd.field_id, set()).add(tuple(rd.path))
+        written = {}
+        for pth, ent in SD.tree.items():
+            if ent[0] in ("field", "opt-field"):
+                written.setdefault(ent[1], set()).add(tuple(pth))
+        for f in sorted(set(reads) & set(written)):
+            if reads[f] != written[f]:
+                res.add(Finding("C01", "ROUNDTRIP.path-asymmetry", NL, "BuiltinStructureMaker",
+                                f"{r['model_kind']} field {f}: dumped to {sorted(map(list, written[f]))}, loaded from {sorted(map(list, reads[f]))}"[:160],
+                                f"model {r['spec']} as {r['model_kind']} under name_mapping `{r['nm']}`: the dumper writes field `{f}` to "
+                                f"{sorted(map(list, written[f]))} but the loader takes it from {sorted(map(list, reads[f]))}", 0))
+    res.count("ROUNDTRIP.kind-models", m, 100)
+
+
 # ================================================================================================ C17: model kinds (tier G)
 def _kind_loader_fp(rec: dict) -> Any:
     from .genaudit import audit_loader
